@@ -676,7 +676,22 @@ pub(crate) mod verif_probe {
                     if sock.read_exact(&mut body).await.is_err() { return; }
                     if code == b'X' { return; }
                     if code != b'Q' { continue; }
+                    let text = String::from_utf8_lossy(&body[..body.len().saturating_sub(1)]).to_string();
                     match behaviour.as_str() {
+                        "late_query" if text.trim() == ";" => {
+                            // the health check is answered, but only after its deadline
+                            tokio::time::sleep(Duration::from_millis(700)).await;
+                            let mut out = BytesMut::new();
+                            out.put_u8(b'I'); out.put_i32(4);
+                            out.put(ready_for_query(false));
+                            if sock.write_all(&out).await.is_err() { return; }
+                        }
+                        "late_query" => {
+                            let mut out = BytesMut::new();
+                            out.put(command_complete("SELECT 7"));
+                            out.put(ready_for_query(false));
+                            if sock.write_all(&out).await.is_err() { return; }
+                        }
                         "hang_query" => { tokio::time::sleep(Duration::from_secs(30)).await; return; }
                         "close_query" => { return; }
                         _ => {
@@ -751,7 +766,23 @@ pub(crate) mod verif_probe {
         }).await;
         let elapsed = t0.elapsed().as_millis() as u64;
         let result = match r { Ok(Ok(id)) => json!(id), Ok(Err(e)) => json!(format!("{:?}", e)), Err(_) => json!("timed out") };
-        json!({"result": result, "banned": banned_ids(&pool), "elapsed_ms": elapsed})
+        // follow-up (servers that answer their health check LATE): once the late reply has arrived, is the connection it arrived on handed out
+        // again?  Whoever gets it reads the health check's reply as the answer to its own query.
+        let mut stale = vec![];
+        if v["followup"].as_bool() == Some(true) {
+            tokio::time::sleep(Duration::from_millis(1100)).await;
+            for i in 0..addrs.len() {
+                if let Ok(Ok(mut conn)) = timeout(Duration::from_millis(800), pool.databases[0][i].get()).await {
+                    let server = &mut *conn;
+                    if server.send(&simple_query("SELECT 7")).await.is_ok() {
+                        if let Ok(Ok(reply)) = timeout(Duration::from_millis(800), server.recv(None)).await {
+                            if reply.first() != Some(&b'C') { stale.push(json!({"server": i, "first_reply_code": reply.first().map(|c| *c as char).map(|c| c.to_string())})); }
+                        }
+                    }
+                }
+            }
+        }
+        json!({"result": result, "banned": banned_ids(&pool), "elapsed_ms": elapsed, "stale": stale})
     }
 
     fn bare_pool(roles: &Value, ban_time: i64) -> (ConnectionPool, Vec<Address>) {
@@ -1208,6 +1239,28 @@ pub(crate) mod verif_probe {
                         "changed_rebuilt": remove_only || change_after.map(|p| !Arc::ptr_eq(&p.databases, &change_before.databases) && p.addresses[0][0].port == 6543).unwrap_or(false),
                     })
                 }))
+            }
+            "host_lookup" => {
+                let mut shards = vec![]; let mut idx = 0usize;
+                for (si, s) in v["layout"].as_array().unwrap().iter().enumerate() {
+                    let mut row = vec![];
+                    for h in s.as_array().unwrap() {
+                        row.push(Address { id: idx, host: format!("host-{}", h.as_str().unwrap()), port: 5432 + idx as u16, address_index: idx, replica_number: idx, shard: si,
+                                           role: if idx == 0 { Role::Primary } else { Role::Replica }, ..Address::default() });
+                        idx += 1;
+                    }
+                    shards.push(row);
+                }
+                let n = shards.len();
+                let pool = ConnectionPool {
+                    databases: Arc::new((0..n).map(|_| vec![]).collect()), addresses: Arc::new(shards),
+                    banlist: Arc::new(RwLock::new((0..n).map(|_| HashMap::new()).collect())), config_hash: 0,
+                    original_server_parameters: Arc::new(RwLock::new(ServerParameters::new())), auth_hash: Arc::new(RwLock::new(None)),
+                    settings: Arc::new(PoolSettings { shards: n, ..PoolSettings::default() }), validated: Arc::new(AtomicBool::new(true)),
+                    paused: Arc::new(AtomicBool::new(false)), paused_waiter: Arc::new(Notify::new()), prepared_statement_cache: None,
+                };
+                let ids: Vec<usize> = pool.get_addresses_from_host(&format!("host-{}", v["host"].as_str().unwrap())).iter().map(|a| a.id).collect();
+                Some(json!({"ids": ids}))
             }
             "pool_try_unban" => {
                 let (pool, addrs) = bare_pool(&v["roles"], v["ban_time"].as_i64().unwrap());
